@@ -930,17 +930,22 @@ Proof. reflexivity. Qed.
 Lemma drop_call_regs : forall d c k, d_regs (drop_call d c k) = d_regs d.
 Proof. reflexivity. Qed.
 
-Lemma sync_yield_frame : forall d callee req opts args kw,
-    d_callee_regs (fst (sync_yield d callee req opts args kw)) = d_callee_regs d /\
-    d_idgen (fst (sync_yield d callee req opts args kw)) = d_idgen d /\
-    d_regs (fst (sync_yield d callee req opts args kw)) = d_regs d.
+Lemma sync_yield_frame : forall lk d callee req opts args kw,
+    d_callee_regs (fst (sync_yield lk d callee req opts args kw)) = d_callee_regs d /\
+    d_idgen (fst (sync_yield lk d callee req opts args kw)) = d_idgen d /\
+    d_regs (fst (sync_yield lk d callee req opts args kw)) = d_regs d.
 Proof.
   intros. unfold sync_yield.
   destruct (cget (d_invs d) (callee, req)) as [inv|]; [|auto].
-  destruct (opt_bool opts "progress"); cbn [orb].
-  - destruct (cget (d_calls d) (inv_call inv)); auto.
-  - match goal with |- context [cget (d_calls ?D) _] => destruct (cget (d_calls D) (inv_call inv)) end;
-      destruct (inv_inprogress inv); cbn [fst];
+  destruct (opt_bool opts "progress").
+  - repeat match goal with
+           | |- context [match cget ?a ?b with _ => _ end] => destruct (cget a b)
+           | |- context [if ?c then _ else _] => destruct c
+           end; cbn [fst]; auto.
+  - repeat match goal with
+           | |- context [match cget ?a ?b with _ => _ end] => destruct (cget a b)
+           | |- context [if ?c then _ else _] => destruct c
+           end; cbn [fst];
       rewrite ?drop_call_cr, ?drop_call_idgen, ?drop_call_regs; cbn [d_callee_regs d_idgen d_regs d_set_invs];
       rewrite ?ct_callee_regs, ?ct_idgen, ?ct_regs; auto.
 Qed.
@@ -956,12 +961,12 @@ Proof.
     cbn [d_callee_regs d_idgen d_regs d_set_invs d_set_bycall d_set_calls]; rewrite ?ct_callee_regs, ?ct_idgen, ?ct_regs; auto.
 Qed.
 
-Lemma sync_yield_realm_wf : forall r callee req opts args kw k,
+Lemma sync_yield_realm_wf : forall r lk callee req opts args kw k,
     realm_wf r -> ids_below k r ->
-    realm_wf (r_set_dealer r (fst (sync_yield (r_dealer r) callee req opts args kw))) /\
-    ids_below k (r_set_dealer r (fst (sync_yield (r_dealer r) callee req opts args kw))).
+    realm_wf (r_set_dealer r (fst (sync_yield lk (r_dealer r) callee req opts args kw))) /\
+    ids_below k (r_set_dealer r (fst (sync_yield lk (r_dealer r) callee req opts args kw))).
 Proof.
-  intros. destruct (sync_yield_frame (r_dealer r) callee req opts args kw) as (E1 & E2 & E3).
+  intros. destruct (sync_yield_frame lk (r_dealer r) callee req opts args kw) as (E1 & E2 & E3).
   apply dealer_step_wf; auto.
   - apply sync_yield_wf. apply (rw_dealer r H).
   - apply sync_yield_core. apply (wf_calls _ _ (rw_dealer r H)).
@@ -1000,11 +1005,11 @@ Proof.
   - destruct (meta_call_wf r proc details args kw oracle k W I Hc) as [W1 I1].
     destruct (meta_call r proc details args kw oracle) as [[r1 resp] kills]. unfold realm_of in *. cbn [fst] in *.
     assert (G : forall d o1, (d, o1) = match resp with
-                                        | MYield a k0 => sync_yield (r_dealer r1) meta_id req [] a k0
+                                        | MYield a k0 => sync_yield (lookup r1) (r_dealer r1) meta_id req [] a k0
                                         | MError e => sync_error (r_dealer r1) meta_id req [] e [] []
                                         end -> realm_wf (r_set_dealer r1 d) /\ ids_below k (r_set_dealer r1 d)).
     { intros d o1 E. destruct resp.
-      - pose proof (sync_yield_realm_wf r1 meta_id req [] args0 kw0 k W1 I1) as Y.
+      - pose proof (sync_yield_realm_wf r1 (lookup r1) meta_id req [] args0 kw0 k W1 I1) as Y.
         rewrite <- E in Y. exact Y.
       - pose proof (sync_error_realm_wf r1 meta_id req [] err [] [] k W1 I1) as Y.
         rewrite <- E in Y. exact Y. }
@@ -1025,6 +1030,15 @@ Proof.
   destruct (dget det "authid"); destruct (dget det "authrole"); rewrite ?dget_dset; reflexivity.
 Qed.
 
+Lemma dget_ppt_into_caller : forall opts d, dget (ppt_into opts d) "caller" = dget d "caller".
+Proof.
+  intros opts d. unfold ppt_into, ppt_keys. cbn [fold_left].
+  repeat match goal with
+         | |- context [match dget opts ?k with _ => _ end] => destruct (dget opts k) as [?v|]
+         | |- context [match as_string ?v with _ => _ end] => destruct (as_string v)
+         end; rewrite ?dget_dset; reflexivity.
+Qed.
+
 Lemma call_details_caller : forall cfg caller callee rg opts proc,
     dget (call_details cfg caller callee rg opts proc) "caller" = None \/
     dget (call_details cfg caller callee rg opts proc) "caller" = Some (vid (s_id caller)).
@@ -1032,7 +1046,7 @@ Proof.
   intros. unfold call_details.
   repeat match goal with |- context [if ?c then _ else _] => destruct c end;
     rewrite ?dget_dset; cbn [String.eqb Ascii.eqb Bool.eqb];
-    rewrite ?dget_disclose_caller; auto.
+    rewrite ?dget_disclose_caller, ?dget_ppt_into_caller; auto.
 Qed.
 
 Lemma as_id_vid : forall n c, n <= max_idN -> as_id (vid n) = Some c -> c = n.
